@@ -377,7 +377,7 @@ func c38BadScriptStreams(valid string) []string {
 	return []string{
 		"//script", "//script\n", "//script\n//end", "//script\n//end\n", "//script\n\n//end\n", "//script ik", "//script ik=", "//script ik=a,ik=b\n" + send + "//end\n", "//script foo=bar\n" + send + "//end\n", "//script ik=a,\n" + send + "//end\n", "//script ,\n" + send + "//end\n", "//script =\n" + send + "//end\n",
 		"//script ik=a=b\n" + send + "//end\n", "//scriptx\n" + send + "//end\n", "// script\n" + send + "//end\n", send, "//end", "//end\n", "", "\n\n", " ", "//script\n" + send, "//script\n" + strings.TrimSuffix(send, "\n"), "//script\nnot numscript\n//end\n", "//script\n" + send + "//end\n//script", "//script\n" + send + "//end\n//script\n",
-		"//script\n" + send + "//end\ngarbage\n", "//script\n" + send + "// end\n", "//script\n" + send + "//END\n", "//script\r\n" + strings.ReplaceAll(send, "\n", "\r\n") + "//end\r\n", "//script\n" + strings.Repeat("x", 70_000) + "\n//end\n", "//script " + strings.Repeat("x", 70_000) + "\n" + send + "//end\n", "//script\n\x00\xff\n//end\n", "\xef\xbb\xbf//script\n" + send + "//end\n",
+		"//script\n" + send + "//end\ngarbage\n", "//script\n" + send + "// end\n", "//script\n" + send + "//END\n", "//script\r\n" + strings.ReplaceAll(send, "\n", "\r\n") + "//end\r\n", "//script\n" + strings.Repeat("x", 70_000) + "\n//end\n", "//script " + strings.Repeat("x", 70_000) + "\n" + send + "//end\n", "//script\n" + send + strings.Repeat("x", 70_000) + "\n//end\n", "//script\n" + send + "// " + strings.Repeat("c", 70_000) + "\n//end\n", "//script\n" + send + "//end\n//script\n" + send + "// " + strings.Repeat("c", 70_000) + "\n//end\n", "//script ik=sik-long\n" + send + strings.Repeat(" ", 66_000) + "\n" + send + "//end\n", "//script\n\x00\xff\n//end\n", "\xef\xbb\xbf//script\n" + send + "//end\n",
 		"//script ik=sik-dup\n" + send + "//end\n//script ik=sik-dup\n" + send + "//end\n", "//script ik=sik-dup2\n" + send + "//end\n//script ik=sik-dup2\nsend [USD 2] (\n source = @world\n destination = @bank\n)\n//end\n", "//script\nsend [USD 1] (\n source = @nofunds\n destination = @bank\n)\n//end\n",
 		strings.Repeat("//script\n"+send+"//end\n", 150), valid + valid, "//script\n//script\n" + send + "//end\n//end\n", "//script\nvars {\n monetary $m\n}\nsend $m (\n source = @world\n destination = @bank\n)\n//end\n",
 	}
